@@ -7,15 +7,15 @@ MODULES = {
     "C04": ["contracts.externals", "contracts.ash"],
     "C05": ["contracts.externals", "contracts.ash"],
     "C01": ["contracts.externals", "contracts.ash", "contracts.ash_wire"],
-    "C11": ["contracts.externals", "contracts.ash", "contracts.ash_wire", "contracts.uart"],
-    "C10": ["contracts.externals", "contracts.ash", "contracts.ash_wire", "contracts.uart", "contracts.ezsp_protocol", "contracts.ezsp"],
+    "C11": ["contracts.externals", "contracts.ash", "contracts.ash_wire", "contracts.uart", "contracts.uart_lifecycle"],
+    "C10": ["contracts.externals", "contracts.ash", "contracts.ash_wire", "contracts.uart", "contracts.uart_lifecycle", "contracts.ezsp_protocol", "contracts.ezsp"],
     "C06": ["contracts.externals", "contracts.codec_headers", "contracts.ezsp_protocol", "contracts.ezsp"],
     "C08": ["contracts.externals", "contracts.codec_headers", "contracts.ezsp_protocol", "contracts.ezsp"],
     "C07": ["contracts.externals", "contracts.codec_headers", "contracts.codec"],
     "C09": ["contracts.externals", "contracts.types_named", "contracts.codec_headers", "contracts.ezsp_protocol", "contracts.ezsp", "contracts.ezsp_config",
-            "contracts.ash", "contracts.ash_wire", "contracts.uart"],
+            "contracts.ash", "contracts.ash_wire", "contracts.uart", "contracts.app_connect"],
     "C16": ["contracts.externals", "contracts.types_named", "contracts.codec_headers", "contracts.ezsp_protocol", "contracts.ezsp", "contracts.ezsp_config"],
-    "C15": ["contracts.externals", "contracts.types_named", "contracts.multicast"],
+    "C15": ["contracts.externals", "contracts.types_named", "contracts.multicast", "contracts.device"],
     "C19": ["contracts.externals", "contracts.types_named", "contracts.application", "contracts.codec_headers", "contracts.ezsp_protocol"],
     "C17": ["contracts.externals", "contracts.types_named", "contracts.codec_headers", "contracts.ezsp_protocol", "contracts.ezsp", "contracts.ezsp_events"],
     "C13": ["contracts.externals", "contracts.types_named", "contracts.application", "contracts.app_callbacks"],
